@@ -34,6 +34,12 @@ from pytezos.michelson.types.core import NatType
 from pytezos.michelson.types.core import StringType
 
 
+# NOTE: Tezos renders a timestamp as an RFC3339 string in readable mode only while it has such a notation
+# with a four-digit year; any other timestamp is rendered (and always accepted) as an integer.
+MIN_RFC3339_TIMESTAMP = -30610224000  # 1000-01-01T00:00:00Z
+MAX_RFC3339_TIMESTAMP = 253402300799  # 9999-12-31T23:59:59Z
+
+
 class TimestampType(IntType, prim='timestamp'):  # type: ignore
     @classmethod
     def from_value(cls, value: int) -> 'TimestampType':
@@ -58,7 +64,9 @@ class TimestampType(IntType, prim='timestamp'):  # type: ignore
         if mode in ['optimized', 'legacy_optimized']:
             return {'int': str(self.value)}
         elif mode == 'readable':
-            return {'string': format_timestamp(self.value)}
+            if MIN_RFC3339_TIMESTAMP <= self.value <= MAX_RFC3339_TIMESTAMP:
+                return {'string': format_timestamp(self.value)}
+            return {'int': str(self.value)}
         else:
             raise AssertionError(f'unsupported mode {mode}')
 
